@@ -58,7 +58,7 @@ func (c *Ctx) registeredLayers() (map[string]bool, int) {
 	out := map[string]bool{}
 	n := 0
 	for _, fn := range c.LibFuncs() {
-		for _, s := range registeredLayerFields(fn) {
+		for _, s := range c.registeredLayerFields(fn) {
 			out[s] = true
 			n++
 		}
@@ -131,7 +131,7 @@ func freshAt(fn *ssa.Function, sel string, at ssa.Instruction, entryFresh bool) 
 func checkFreshLayers(c *Ctx, r *Report, rule string) {
 	r.Rule(rule, "typestate fresh/dirty: every struct field registered with DecodingLayerContainer.Put is overwritten by each decode; a layer passed to gopacket.SerializeLayers must have been re-initialised (whole-value store) since the last decode on every path, where the entry state of a retried closure is the join of the state at backoff.Retry and the closure's own exits", 8)
 	reg, _ := c.registeredLayers()
-	if len(reg) < 4 {
+	if len(reg) < 3 {
 		r.Lost("layer fields registered with DecodingLayerContainer.Put")
 		return
 	}
